@@ -62,6 +62,33 @@ func init() {
 			return nil
 		},
 		"vfScanNondeterminism": vfScanNondeterminism,
+		// vfProved(cond): try to prove cond under the current path condition. true: proved
+		// (and assumed); false: not proved (a model exists or the solver gave up) - nothing is
+		// reported, the harness is expected to continue with a stage whose models replay.
+		"vfProved": func(fr *frame, args []value) value {
+			ex := fr.i.ex
+			ex.impure("vfProved")
+			ex.flush()
+			cond := boolTerm(ex, args[0])
+			ex.provedN++
+			key := fmt.Sprintf("native:proved#%d", ex.provedN)
+			if cond.IsTrue() {
+				ex.Extra[key] = 1
+				return true
+			}
+			r := ex.querySplit(ex.C.Not(cond), false)
+			ob := Obligation{Harness: ex.Harness, Case: ex.Case, Kind: "lemma", Msg: "abstract stage: " + strArg(args[1]), Path: ex.Paths, Status: r.Status, Solver: r.Solver, Secs: r.Secs}
+			if r.Status == "unsat" {
+				ex.Obls = append(ex.Obls, ob)
+				ex.assume(cond, true)
+				ex.Extra[key] = 1
+				return true
+			}
+			ob.Status = "sat" // recorded as a focused lemma that was not provable (never a violation by itself)
+			ex.Obls = append(ex.Obls, ob)
+			ex.Extra[key] = 0
+			return false
+		},
 		// vfStubRecursive(name, fn): like vfStub, but the outermost call runs the real
 		// body and only the calls made from inside it are replaced (one inductive step)
 		"vfStubRecursive": func(fr *frame, args []value) value {
